@@ -20,10 +20,14 @@ def parseKind : String → Option Kind
   | "point" => some .point | "mpoint" => some .mpoint | "mline" => some .mline | "mpoly" => some .mpoly
   | _ => none
 
+/-- instant token `<µs>[@n|@o<minutes>]`: the suffix is the spelling of the datetime (naive / another UTC offset);
+    the value is the instant — this is the abstraction function datetime ↦ µs (naive is read as UTC) -/
+def parseInst (s : String) : Option Int := parseInt ((s.splitOn "@").headD "")
+
 def parseTI (s : String) : Option (Option TI) :=
   if s == "_" then some none else
   match s.splitOn ":" with
-  | [a, b] => do let x ← parseInt a; let y ← parseInt b; some (some ⟨x, y⟩)
+  | [a, b] => do let x ← parseInst a; let y ← parseInst b; some (some ⟨x, y⟩)
   | _ => none
 
 /-- `5` or `[1;2;3]` -/
@@ -52,7 +56,8 @@ def parseProps (s : String) : Option (List (String × RVal)) :=
 def parseMut (s : String) : Option (Mut Nat) :=
   match s.splitOn ":" with
   | ["setdt", "_"] => some (.setDt none)
-  | ["setdt", a, b] => do let x ← parseInt a; let y ← parseInt b; some (.setDt (some ⟨x, y⟩))
+  | ["setdt", a, b] => do let x ← parseInst a; let y ← parseInst b; some (.setDt (some ⟨x, y⟩))
+  | ["setdtd", a] => do let x ← parseInst a; some (.setDt (some ⟨x, x⟩))     -- a datetime argument: an instant
   | ["buffer", d] => (parseInt d).map .bufferDt
   | ["strip"] => some .stripDt
   | ["setprop", kv] => do let (k, v) ← parseKV kv; let a ← parsePArg v; some (.setProp k a)
